@@ -791,7 +791,10 @@ pub assume_specification [<{q} as PartialEq>::eq] (a: &{q}, b: &{q}) -> (r: bool
             if n != 1:
                 raise LostAnchor(f'{fn}: subst anchor {old!r} matches {n} times')
             i = len(whole[:whole.index(old)].encode()) + a
-            edits.append((i, i + len(old.encode()), [Seg(new)]))
+            j = i + len(old.encode())
+            # a tagged substitution replaces whatever automatic rewrite (R1/R2 on a macro) lies inside its span
+            edits = [x for x in edits if not (i <= x[0] and x[1] <= j and x[0] < x[1])]
+            edits.append((i, j, [Seg(new)]))
             if tag:
                 self._rw(tag)
         # ghost blocks
@@ -1202,7 +1205,7 @@ pub assume_specification [<{q} as PartialEq>::eq] (a: &{q}, b: &{q}) -> (r: bool
         self.inside.append(Seg('\n'))
         self.extracted.append((path, f'trait {name}'))
 
-    def const(self, path, impl, name, ensures=None):
+    def const(self, path, impl, name, ensures=None, proof=''):
         """an associated/free const; with `ensures` it is emitted as Verus `exec const NAME: T ensures .. { init }` (R9)"""
         src, e = find(path, 'const', **{'impl': impl, 'const': name})
         a, b = e['item']
@@ -1221,7 +1224,7 @@ pub assume_specification [<{q} as PartialEq>::eq] (a: &{q}, b: &{q}) -> (r: bool
         self.clauses[cid] = {'kind': 'ensures', 'fn': fid, 'text': ensures}
         self.functions.append({'id': fid, 'path': path, 'impl': impl, 'fn': name, 'clauses': [cid], 'loops': 0, 'trait': True})
         return [Seg(f'/*VXFN {fid}*/ pub exec const {m.group(2)}: {m.group(3)}\n        ensures ', fn=fid), Seg(ensures, clause=cid, fn=fid),
-                Seg(f'\n    {{ {m.group(4)} }} /*VXEND {fid}*/\n', fn=fid)]
+                Seg(f'\n    {{ {proof.replace("@INIT@", m.group(4))} {m.group(4)} }} /*VXEND {fid}*/\n', fn=fid)]
 
     def impl(self, header, fns):
         self.inside.append(Seg(header + ' {\n'))
